@@ -110,9 +110,12 @@ FreqOK(rows, j, cs) ==
 OrderOK(rows, j, cs) == NoInventOK(rows, j, cs) /\ NoDropOK(rows, j, cs) /\ FreqOK(rows, j, cs)
 
 (* Layout: which output columns belong to which input column.  A plain column owns exactly one output column,
-   an amount-like column the longest run of Decimal columns named `name (CUR)` for a currency occurring in it.
-   (Input column names are distinct, and no plain Decimal column is named like a new column of its left
-   neighbour -- assumptions of the harness generators.) *)
+   an amount-like column a run of Decimal columns named `name (CUR)` for distinct currencies occurring in it.
+   Column NAMES need not be distinct (BQL lets two targets carry the same alias, `SELECT units(position) AS amt,
+   cost(position) AS amt`): ownership is positional, and where equal names make the boundary between two runs
+   ambiguous the statement is read existentially -- an output is acceptable iff SOME layout satisfies every
+   clause (Layouts).  Layout is the greedy one (longest run), used to name the failing clauses in reports; it is
+   the only candidate when the names are distinct. *)
 GroupLen(cols, rows, j, ocols, o) ==
     LET A == CurAll(rows, j)
         names == {NewName(cols[j].name, c) : c \in A}
@@ -125,6 +128,28 @@ Layout(cols, rows, ocols) ==
             IF j = 0 THEN 0
             ELSE off[j - 1] + (IF IsAmt(cols[j]) THEN GroupLen(cols, rows, j, ocols, off[j - 1]) ELSE 1)
     IN off
+
+(* the run lengths input column j may own from offset o on: a plain column one output column of its own name and
+   type; an amount-like column any prefix of well-named Decimal columns with pairwise different names *)
+GroupLens(cols, rows, j, ocols, o) ==
+    IF ~IsAmt(cols[j])
+    THEN IF o + 1 <= Len(ocols) /\ ocols[o + 1].name = cols[j].name /\ ocols[o + 1].ty = cols[j].ty THEN {1} ELSE {}
+    ELSE LET A == CurAll(rows, j)
+             names == {NewName(cols[j].name, c) : c \in A}
+             bound == Min(Cardinality(A), Max(0, Len(ocols) - o))
+             good(i) == /\ ocols[o + i].name \in names /\ ocols[o + i].ty = "Decimal"
+                        /\ \A h \in 1..(i - 1) : ocols[o + h].name # ocols[o + i].name
+         IN {k \in 0..bound : \A i \in 1..k : good(i)}
+
+(* s[j + 1] = index of the last output column owned by input column j (s[1] = 0) *)
+RECURSIVE OffSeqs(_, _, _, _)
+OffSeqs(cols, rows, ocols, j) ==
+    IF j = 0 THEN {<<0>>}
+    ELSE UNION {{Append(s, s[j] + k) : k \in GroupLens(cols, rows, j, ocols, s[j])} :
+                s \in OffSeqs(cols, rows, ocols, j - 1)}
+Layouts(cols, rows, ocols) ==
+    LET n == Len(cols) IN
+    {[j \in 0..n |-> s[j + 1]] : s \in {t \in OffSeqs(cols, rows, ocols, n) : t[n + 1] = Len(ocols)}}
 
 GroupCurs(cols, rows, j, ocols, off) ==
     [i \in 1..(off[j] - off[j - 1]) |->
@@ -154,16 +179,17 @@ CellsAll(cols, rows, fmt, q, ocols, orows, off) ==
             orows[r][off[j - 1] + i].num \in AcceptCells(rows[r][j], cs[i], fmt, q)
 
 (* THE PROPERTY: (ocols, orows) is an acceptable numberification of (cols, rows) under formatter (fmt, q) *)
+AcceptsWith(cols, rows, fmt, q, ocols, orows, off) ==
+    /\ off[Len(cols)] = Len(ocols)
+    /\ PlainDescOK(cols, ocols, off)
+    /\ PlainIdentityOK(cols, rows, orows, off)
+    /\ NoInventAll(cols, rows, ocols, off)
+    /\ NoDropAll(cols, rows, ocols, off)
+    /\ FreqAll(cols, rows, ocols, off)
+    /\ CellsAll(cols, rows, fmt, q, ocols, orows, off)
 Accepts(cols, rows, fmt, q, ocols, orows) ==
     /\ ShapeOK(rows, ocols, orows)
-    /\ LET off == Layout(cols, rows, ocols) IN
-       /\ off[Len(cols)] = Len(ocols)
-       /\ PlainDescOK(cols, ocols, off)
-       /\ PlainIdentityOK(cols, rows, orows, off)
-       /\ NoInventAll(cols, rows, ocols, off)
-       /\ NoDropAll(cols, rows, ocols, off)
-       /\ FreqAll(cols, rows, ocols, off)
-       /\ CellsAll(cols, rows, fmt, q, ocols, orows, off)
+    /\ \E off \in Layouts(cols, rows, ocols) : AcceptsWith(cols, rows, fmt, q, ocols, orows, off)
 
 (* names of the clauses that fail, for reports *)
 FailedClauses(cols, rows, fmt, q, ocols, orows) ==
@@ -204,7 +230,7 @@ CONSTANTS
     Q,            \* the formatter's precisions
     CurSeq,       \* all currencies, in ascending string order (the tie-break of sorted())
     InvNull,      \* "skip" (the code: None skipped in census and converter) | "raise" (as shipped before fix e9990d2)
-    Mut           \* "none" | "cap2" | "asc" | "poscost" | "noquant" | "lot1"  (broken mechanisms, non-vacuity)
+    Mut           \* "none" | "cap2" | "asc" | "poscost" | "noquant" | "lot1" | "byname"  (broken mechanisms, non-vacuity)
 
 VARIABLES
     gen,          \* the shape of the input space the caller draws the table from: [id |-> index in Shapes, max |-> rows]
@@ -244,11 +270,17 @@ Call ==
     /\ pc = "input" /\ pc' = "census"
     /\ UNCHANGED <<gen, tbl, fmt, ci, ri, cmap, convs, orows, err>>
 
-(* for index, column in enumerate(columns): a column of any other datatype gets the IdentityConverter *)
+(* for index, column in enumerate(columns): the converters of a column read the cell at ITS position.  The broken
+   mechanism "byname" finds the position by looking the description up (the first column with that name and
+   datatype): indistinguishable unless two columns carry the same name and datatype. *)
+ColIdx(j) ==
+    IF Mut = "byname" THEN CHOOSE i \in 1..j : tbl.cols[i] = tbl.cols[j] /\ \A h \in 1..(i - 1) : tbl.cols[h] # tbl.cols[j]
+    ELSE j
+(* a column of any other datatype gets the IdentityConverter *)
 IdentityColumn ==
     /\ pc = "census" /\ ci <= NCols /\ ~IsAmt(tbl.cols[ci])
     /\ convs' = Append(convs, [kind |-> "Identity", name |-> tbl.cols[ci].name, ty |-> tbl.cols[ci].ty,
-                               idx |-> ci, cur |-> ""])
+                               idx |-> ColIdx(ci), cur |-> ""])
     /\ ci' = ci + 1
     /\ UNCHANGED <<gen, tbl, fmt, pc, ri, cmap, orows, err>>
 
@@ -265,7 +297,7 @@ Counted(cell, ty) ==
 (* convert_col_X: for drow in drows *)
 CensusRow ==
     /\ pc = "census" /\ ci <= NCols /\ IsAmt(tbl.cols[ci]) /\ ri <= NRows
-    /\ LET cell == tbl.rows[ri][ci] ty == tbl.cols[ci].ty IN
+    /\ LET cell == tbl.rows[ri][ColIdx(ci)] ty == tbl.cols[ci].ty IN
        IF ty = "Inventory" /\ cell.isnull = 1 /\ InvNull = "raise"
        THEN /\ err' = "AttributeError" /\ pc' = "done"        \* None.currencies()
             /\ UNCHANGED <<gen, tbl, fmt, ci, ri, cmap, convs, orows>>
@@ -284,7 +316,7 @@ BuildConverters ==
     /\ LET cs == SortedCurs IN
        convs' = convs \o [i \in 1..Len(cs) |->
                     [kind |-> tbl.cols[ci].ty, name |-> NewName(tbl.cols[ci].name, cs[i]), ty |-> "Decimal",
-                     idx |-> ci, cur |-> cs[i]]]
+                     idx |-> ColIdx(ci), cur |-> cs[i]]]
     /\ cmap' = EmptyMap /\ ci' = ci + 1 /\ ri' = 1
     /\ UNCHANGED <<gen, tbl, fmt, pc, orows, err>>
 
@@ -336,9 +368,12 @@ Returned == pc = "done" /\ err = "none"
 
 -----------------------------------------------------------------------------
 (* What TLC proves about the mechanism.  The sub-properties are stated directly on (input, output), by column
-   NAME, independently of the layout analysis used in Accepts. *)
+   NAME, independently of the layout analysis used in Accepts -- hence for the amount-like columns whose name no
+   other column carries (AmtCols); equally named columns are covered by Correct / CorrectGen, which are positional. *)
 ColsFor(j, c) == {k \in DOMAIN OCols : OCols[k].name = NewName(tbl.cols[j].name, c)}
-AmtCols == {j \in DOMAIN tbl.cols : IsAmt(tbl.cols[j])}
+UniqueName(j) == \A i \in DOMAIN tbl.cols : i # j => tbl.cols[i].name # tbl.cols[j].name
+AmtColsAll == {j \in DOMAIN tbl.cols : IsAmt(tbl.cols[j])}
+AmtCols == {j \in AmtColsAll : UniqueName(j)}
 RVal(num) == IF num = <<>> THEN Zero ELSE num
 
 \* numberify is total on the quantified domain (NULL cells and empty inventories included)
@@ -373,14 +408,14 @@ NothingInvented ==
               ~Has(tbl.rows[r][j], c) => RVal(orows[r][k].num) = Zero
         /\ \A k \in DOMAIN OCols :
               \/ \E j \in DOMAIN tbl.cols : ~IsAmt(tbl.cols[j]) /\ OCols[k] = tbl.cols[j]
-              \/ \E j \in AmtCols : \E c \in CurAll(tbl.rows, j) : k \in ColsFor(j, c) /\ OCols[k].ty = "Decimal"
+              \/ \E j \in AmtColsAll : \E c \in CurAll(tbl.rows, j) : k \in ColsFor(j, c) /\ OCols[k].ty = "Decimal"
 \* plain columns are copied, in their relative order, between the groups of new columns
 PlainIdentity ==
     Returned => \A j \in DOMAIN tbl.cols : ~IsAmt(tbl.cols[j]) =>
         \E k \in DOMAIN OCols :
             /\ OCols[k] = tbl.cols[j]
             /\ \A r \in DOMAIN tbl.rows : orows[r][k].tok = tbl.rows[r][j].tok
-            /\ \A j2 \in DOMAIN tbl.cols : (j2 < j /\ IsAmt(tbl.cols[j2])) =>
+            /\ \A j2 \in AmtCols : j2 < j =>
                   \A c \in CurAll(tbl.rows, j2) : \A k2 \in ColsFor(j2, c) : k2 < k
 \* row count and row order (plain cells identify the rows)
 RowsPreserved == Returned => Len(orows) = NRows /\ \A r \in DOMAIN orows : Len(orows[r]) = Len(OCols)
